@@ -144,7 +144,7 @@ def _connected(names, edges):
     return len(seen) == len(names)
 
 
-BUDGET = {"quick": (40000, 60), "thorough": (800000, 900)}
+BUDGET = {"quick": (24000, 70), "thorough": (600000, 900)}
 REAL = ["pydcop.algorithms.dba", "pydcop.dcop.relations",
         "pydcop.computations_graph.constraints_hypergraph", "pydcop.infrastructure.computations"]
 STUB = ["Agent", "Messaging", "transport", "discovery (replaced by compsim FIFO channel model)"]
